@@ -1946,13 +1946,16 @@ void Router::markPolylineConnectorsNeedingReroutingForDeletedObstacle(
             }
 
             double x;
-            if ((b + d) == 0)
+            if ((b * d) < 0)
             {
-                db_printf("WARNING: (b + d) == 0\n");
-                d = d * -1;
+                // The route's ends lie on opposite sides of the line through
+                // this edge: the cheapest point of that line is where the
+                // straight segment between them crosses it.  (The reflection
+                // formula below is only a lower bound for ends on the same
+                // side.)
+                x = ((fabs(b) * c) + (a * fabs(d))) / (fabs(b) + fabs(d));
             }
-
-            if ((b == 0) && (d == 0))
+            else if ((b == 0) && (d == 0))
             {
                 db_printf("WARNING: b == d == 0\n");
                 if (((a < min) && (c < min)) ||
